@@ -9,6 +9,8 @@
 
 #[path = "c20_corpus.rs"]
 mod c20_corpus;
+#[path = "c20_golden.rs"]
+mod c20_golden;
 #[path = "c20_skel.rs"]
 mod c20_skel;
 
@@ -97,6 +99,9 @@ pub struct Plan {
     pub trailing: u8,
     pub read_io: IoPlan,
     pub write_io: IoPlan,
+    /// additionally check hand-built value number i of c20_golden against its hand-written JVMS bytes
+    #[serde(default)]
+    pub golden: Option<usize>,
 }
 
 const POOL_KINDS: [&str; 7] = ["utf8", "integer", "float", "long", "double", "class_this", "string_this"];
@@ -1035,7 +1040,7 @@ impl Engine for C20 {
     }
     fn runs(&self, tier: Tier) -> u64 {
         match tier {
-            Tier::Quick => 400_000,
+            Tier::Quick => 300_000,
             Tier::Thorough => 6_000_000,
         }
     }
@@ -1046,7 +1051,10 @@ impl Engine for C20 {
         let mut f = rng.split("faults");
         let mut m = rng.split("rawops");
         let src = gen_source(&mut w, tier);
-        let mut p = Plan { src, raw_base_minimal: false, raw_ops: vec![], trailing: 0, read_io: IoPlan::plain(), write_io: IoPlan::plain() };
+        let mut p = Plan { src, raw_base_minimal: false, raw_ops: vec![], trailing: 0, read_io: IoPlan::plain(), write_io: IoPlan::plain(), golden: None };
+        if m.chance(4) {
+            p.golden = Some(m.usize(c20_golden::COUNT));
+        }
         if m.chance(50) {
             p.raw_base_minimal = m.chance(15);
             for _ in 0..m.range(1, 3) {
@@ -1311,6 +1319,33 @@ impl Engine for C20 {
             }
         }
 
+        // ---------------- hand-built values with a sentinel in every field vs hand-written JVMS bytes
+        if let Some(i) = p.golden {
+            st.probe("golden.checked");
+            let c = c20_golden::case(i % c20_golden::COUNT);
+            match no_panic(|| c.value.to_bytes()) {
+                Ok(o) => {
+                    obs.bytes(&o);
+                    if o != c.bytes {
+                        let at = first_diff(&o, &c.bytes);
+                        out.push(Violation::new("T0", "invalid-output", format!("golden.{}.write", c.name), format!("to_bytes of the hand-built value differs from the JVMS layout at byte {at}: wrote {:02x?}, JVMS {:02x?} (lengths {} vs {})", o.get(at), c.bytes.get(at), o.len(), c.bytes.len())));
+                    }
+                }
+                Err(pm) => out.push(Violation::new("T0", "panic", panic_ident(&format!("golden.{}.to_bytes", c.name), &pm), pm)),
+            }
+            let r = read_plain(&c.bytes);
+            obs.u64(r.code());
+            match &r.res {
+                Ok(Ok(v)) => {
+                    if v != &c.value {
+                        out.push(Violation::new("T0", "semantic-mismatch", format!("golden.{}.read", c.name), "read of the hand-written JVMS bytes returns a value different from the hand-built one".to_string()));
+                    }
+                }
+                Ok(Err(e)) => out.push(Violation::new("T0", "semantic-mismatch", format!("golden.{}.read", c.name), format!("read of the hand-written JVMS bytes failed: {e}"))),
+                Err(pm) => out.push(Violation::new("T0", "panic", panic_ident(&format!("golden.{}.read", c.name), pm), pm.clone())),
+            }
+        }
+
         // ---------------- reader through the simulated source
         if !p.read_io.is_plain() {
             let legal = p.read_io.legal_only();
@@ -1353,9 +1388,11 @@ impl Engine for C20 {
                             }
                             None => out.push(Violation::new("T1", "schedule-dependence", "read.result", "plain read failed, read under short/interrupted reads succeeded".to_string())),
                         }
-                        if consumed != bytes.len() {
-                            out.push(Violation::new("T1", "stream-position", "read.consumed", format!("consumed {consumed} bytes, the class has {} ({} trailing bytes on the medium)", bytes.len(), p.trailing)));
-                        } else if p.trailing > 0 {
+                        // the plain read consumed exactly the class (judged at T0); the same must hold whatever the chunking,
+                        // and the bytes after the class stay untouched
+                        if consumed != r0.consumed {
+                            out.push(Violation::new("T1", "stream-position", "read.consumed", format!("consumed {consumed} bytes, the plain read {} (class {} bytes, {} trailing bytes on the medium)", r0.consumed, bytes.len(), p.trailing)));
+                        } else if p.trailing > 0 && consumed == bytes.len() {
                             st.probe("t1.trailing-bytes-untouched");
                         }
                     } else {
@@ -1524,6 +1561,11 @@ impl Engine for C20 {
             q.trailing = 0;
             c.push(q);
         }
+        if p.golden.is_some() {
+            let mut q = p.clone();
+            q.golden = None;
+            c.push(q);
+        }
         if !p.raw_ops.is_empty() {
             let mut q = p.clone();
             q.raw_ops.clear();
@@ -1644,7 +1686,7 @@ impl Engine for C20 {
     fn expected_probes(&self) -> Vec<&'static str> {
         vec![
             "src.corpus-raw", "src.corpus-reencoded", "src.generated", "input.pool-has-long-double", "input.pool-without-long-double", "t0.read-ok", "t0.rewrite-byte-exact", "raw.ops-applied", "raw.base-minimal",
-            "raw.base-from-read", "io.eintr", "io.short_transfers", "t1.trailing-bytes-untouched", "t2.read-err", "t2.read-ok.byte-exact", "t2.write-err", "t2.write-err-at-last-byte", "attr.Code", "attr.StackMapTable",
+            "raw.base-from-read", "golden.checked", "io.eintr", "io.short_transfers", "t1.trailing-bytes-untouched", "t2.read-err", "t2.read-ok.byte-exact", "t2.write-err", "t2.write-err-at-last-byte", "attr.Code", "attr.StackMapTable",
             "attr.NestMembers", "attr.MethodParameters", "ok.attr.ConstantValue", "ok.attr.Code", "ok.attr.StackMapTable", "ok.attr.Exceptions", "ok.attr.InnerClasses", "ok.attr.EnclosingMethod", "ok.attr.Synthetic",
             "ok.attr.Signature", "ok.attr.SourceFile", "ok.attr.SourceDebugExtension", "ok.attr.LineNumberTable", "ok.attr.LocalVariableTable", "ok.attr.LocalVariableTypeTable", "ok.attr.Deprecated",
             "ok.attr.RuntimeVisibleAnnotations", "ok.attr.RuntimeInvisibleAnnotations", "ok.attr.RuntimeVisibleParameterAnnotations", "ok.attr.RuntimeInvisibleParameterAnnotations",
